@@ -368,12 +368,29 @@ fn one_case(rng: &mut Rng, rep: &mut Report, case: u64, scratch: Option<&Scratch
             let dir = sc.dir(case, k);
             // the caller provides an existing directory (an empty set writes no file, hence creates nothing)
             if let Err(e) = std::fs::create_dir_all(&dir) { rep.note(format!("cannot create scratch directory: {e}")); rep.count("harness.scratch_io"); return; }
+            // Environment: the second directory is not empty - it already holds a file at the path of every file-level class, with an
+            // OLDER and LONGER content (the new text followed by members that have since been removed), as after an earlier write of
+            // a larger set. "Every class lands in exactly one file" and the round trip speak about the files this write produces: each
+            // must hold exactly the new text (compared with the other two directories below), not the new text plus the old tail.
+            if k == 1 && !pieces.is_empty() {
+                for (f, t) in &pieces {
+                    let path = dir.join(format!("{f}.mapping"));
+                    if let Some(parent) = path.parent() { let _ = std::fs::create_dir_all(parent); }
+                    let old = format!("{t}\tFIELD stale_{} was_here I\n\tMETHOD old_m old_target ()V\n\t\tARG 1 gone\n\tCLASS Removed StaleInner\n\t\tFIELD x y Ljava/lang/String;\n", f.len());
+                    if let Err(e) = std::fs::write(&path, old) { rep.note(format!("cannot pre-populate scratch directory: {e}")); rep.count("harness.scratch_io"); return; }
+                }
+                rep.count("directory.writes_over_older_longer_files");
+            }
             let r = guard(|| quill::enigma_dir::write(q, &dir));
             if settle(rep, "enigma_dir::write", "Err on a set inside the domain", &detail, r).is_none() { let _ = std::fs::remove_dir_all(&dir); return; }
             match list_files(&dir) { Ok(l) => listings.push(l), Err(e) => { rep.note(format!("cannot list scratch directory: {e}")); rep.count("harness.scratch_io"); return; } }
         }
         rep.count("directory.writes");
-        if listings.iter().any(|l| *l != listings[0]) { rep.violation("C12 determinism: directory content differs between insertion orders", json!({"input": detail()})); }
+        if listings[0] != listings[2] { rep.violation("C12 determinism: directory content differs between insertion orders", json!({"input": detail()})); }
+        else if listings[1] != listings[0] {
+            let stale = listings[1].iter().any(|(f, b)| listings[0].get(f).is_some_and(|n| b.len() > n.len() && b.starts_with(n)));
+            rep.violation(if stale { "C12 directory: a file that existed before the write keeps the tail of its old content (the new text is written over the beginning only)" } else { "C12 determinism: directory content differs between insertion orders" }, json!({"input": detail()}));
+        }
         let file_texts: BTreeMap<String, String> = listings[0].iter().map(|(f, b)| (f.clone(), String::from_utf8_lossy(b).into_owned())).collect();
         rep.max("max.files_in_directory", file_texts.len() as u64);
         rep.max("max.directory_depth", file_texts.keys().map(|f| f.matches('/').count()).max().unwrap_or(0) as u64);
@@ -527,6 +544,7 @@ fn main() {
         meta.oblige("judged sets with nesting depth >= 17 (chains of inner classes)", rep.get("max.nesting_depth") >= 17 && rep.get("class.nesting_depth_17_or_more") >= 20);
         meta.oblige("constructors named <init> in the target namespace", rep.get("method.target_name_is_init") > 0);
         meta.oblige("directories with >= 5 files and depth >= 3", rep.get("max.files_in_directory") >= 5 && rep.get("max.directory_depth") >= 3);
+        meta.oblige("directory writes over older, longer files at the same paths (>= 50)", rep.get("directory.writes_over_older_longer_files") >= 50);
         meta.oblige("stream, write_one and directory formats all exercised", rep.get("stream.writes") > 0 && rep.get("write_one.calls") > 0 && rep.get("directory.writes") > 0);
         meta.oblige("at most 10% of the cases fall outside the judged domain by accident", rep.get("not_judged.total") * 10 <= rep.evaluations);
         meta.oblige("no harness conversion / scratch I/O failure", rep.get("harness.to_quill_failed") + rep.get("harness.scratch_io") == 0);
